@@ -1,3 +1,3 @@
 From Coq Require Import ExtrOcamlBasic.
-From ChibiV Require Import Common.ExtractBase C07.Env C07.Expand C07.Strip.
-Extraction "model.ml" ext_base env_cell identifier_eq strip id_name idp rename inst expand resolve analyze swapU extend_synclo_env enter_fv enter_env contains strip_b strip_synclos strip_spec has_clo hgt.
+From ChibiV Require Import Common.ExtractBase C07.Env C07.Expand C07.Strip C07.Template.
+Extraction "model.ml" ext_base env_cell identifier_eq strip id_name idp rename inst expand resolve analyze swapU extend_synclo_env enter_fv enter_env contains strip_b strip_synclos strip_spec has_clo hgt compile eval expand_template.
